@@ -521,6 +521,23 @@ def check(prop, tier):
         extra["corpus_cases"] = ncorp
         extra["generated_cases"] = len(lines) - ncorp
         dis = [(n, r) for k, n, r in events if k == "D"]
+        # a disagreement that rests on a liveness time-out of the implementation (marker event in its observation) is
+        # re-run with 5x the time-out before it counts, like a predicate failure of that kind
+        marker0 = eng.get("liveness_marker")
+        if marker0 and dis:
+            kept = []
+            for (n, r) in dis:
+                caseline = lines[n - 1] if 0 < n <= len(lines) else ""
+                toks = caseline.split(" => ")[-1].replace(";", ",").replace("|", ",").split(",")
+                if marker0 in toks and len(kept) < 50:
+                    os.environ["VERIF_TIMEOUT_MS"] = "2000"
+                    again = case_fails(engine, prop, caseline.split(" => ")[0], "D")
+                    os.environ.pop("VERIF_TIMEOUT_MS", None)
+                    if again is None:
+                        extra["liveness_timeouts_not_reproduced"] = extra.get("liveness_timeouts_not_reproduced", 0) + 1
+                        continue
+                kept.append((n, r))
+            dis = kept
         bad = [(n, r) for k, n, r in events if k == "X"]
         preds = [(n, r) for k, n, r in events if k == "P" and r.startswith(prop + " ")]
         other_preds = [(n, r) for k, n, r in events if k == "P" and not r.startswith(prop + " ")]
